@@ -24,10 +24,13 @@
    after every failure — and it re-issues child 0 after a fault followed by a partially failing
    reload (FaultReloadProofs.new_address_mirror_refuted).
 
-   [mem_undo] is a second switch: false = the code as it is (a failed NewAddress drops the cached
-   keystore and reloads it from the store: the reload can fail, partially or altogether); true = the
-   repair proposed with this model (fix-c18f: the addresses NextAddresses had added are taken out
-   of the table again, no database access, cannot fail).
+   [mem_undo] is a second switch: true = the code as it stands (96d76da, the repair proposed with this
+   model: ForgetAddresses takes the addresses NextAddresses had added out of the table again, no
+   database access, cannot fail; the same switch as Import.f_keystore_undo in Ledger/FaultOps.v);
+   false = the code before (f6a5978: a failed NewAddress dropped the cached keystore and reloaded it
+   from the store — a reload that can fail, partially or altogether).  Since 96d76da loadAddrManager
+   runs only in ImportWallet / ImportWalletWithMnemonic and at start-up ([ELoad]), where its partial
+   failure is still possible: the theorems about [from_store = true] hold for both values.
 
    One wallet (keystore buckets of different wallets are disjoint); [derive i] is address number i
    of its external branch (BIP-32 child i, hashed: C04/C14), arbitrary here. *)
